@@ -8,6 +8,9 @@ CONSTANTS NP = 2
   Skip <- MCNoSkip
   ResOut = 65533
   ResOther = 65531
+  Pipe = "never"
+  MaxBurst = 3
+  LenSet = "all"
   Thin = FALSE
 INIT Init
 NEXT Next
@@ -24,4 +27,6 @@ PROPERTY RepliesReflectState
 PROPERTY RequestsReadOnly
 PROPERTY ConfigSticks
 PROPERTY ErrorsRejectWhole
+PROPERTY Pipelined
+PROPERTY ErrorsQuoteRequest
 CHECK_DEADLOCK FALSE
